@@ -74,7 +74,7 @@ class Prop(Check):
     THEOREMS = THEOREMS
     DRIVER = "Drivers/LoadTree.lean"
     QUICK_CASES = 420
-    THOROUGH_CASES = 12000
+    THOROUGH_CASES = 7000
     RULE = ("load trees of 1..5 files x user classes (7 variants, none, subsets of 5 rules) x complete fault table "
             "(14 entries, cycled) x nested loads from user code (40%) x immutable root (6%) x global repository (10%); "
             "non-trivial = a user class was instrumented and (a constructor ran or the load failed after instrumenting)")
@@ -89,6 +89,7 @@ class Prop(Check):
         "scope-provider calls of later resolution rounds are not modelled (the harness logs the first call per reference)",
     ]
     PROBE = False
+    PROCS_THOROUGH = 8
     FAULTS = list(range(len(lt.FAULTS)))
 
     def gen(self, rng, n, tier):
